@@ -217,14 +217,30 @@ structure Spec where
   pre : Bool := false                          -- context already done at the start
   deriving Repr, Inhabited
 
-/-- the scenario pipeline of a spec over a (regenerated) pipeline; `none`: unknown channel -/
+/-- every name of the spec means something in the pipeline: each function under test has a
+    goroutine, each channel exists, each named decision occurs in a goroutine under test.
+    (`Scenario.ofSpec` is total; a spec that no longer resolves must not pass for a scenario.) -/
+def Spec.resolves (m : String → String → Bool) (p0 : Pipeline) (sp : Spec) : Bool :=
+  let keep := sp.keep.flatMap fun k => p0.gsByName k.1 k.2
+  sp.keep.all (fun k => !(p0.gsByName k.1 k.2).isEmpty) &&
+  sp.feed.all (fun s => (p0.chanByName s.1.1 s.1.2).isSome) &&
+  sp.cons.all (fun s => (p0.chanByName s.1.1 s.1.2).isSome) &&
+  sp.obs.all (fun s => (p0.chanByName s.1 s.2).isSome) && !sp.obs.isEmpty &&
+  sp.pick.all (fun pk => keep.any fun g => match p0.gs[g]? with
+    | some gr => gr.conds.any (fun c => c.any (fun path => path.any (fun d => m d.1 pk.1)))
+    | none => false) &&
+  sp.ctl.all (fun op => match op with
+    | .feed i => decide (i < sp.feed.length)
+    | _ => true)
+
+/-- the scenario pipeline of a spec over a (regenerated) pipeline; `none`: a name does not resolve -/
 def Scenario.ofSpec (m : String → String → Bool) (p0 : Pipeline) (sp : Spec) : Option Scenario :=
   let keep := sp.keep.flatMap fun k => p0.gsByName k.1 k.2
   let p1 := sp.pick.foldl (fun p s => applyPick m p keep s.1 s.2) p0
   let feeds := sp.feed.map fun s => (p1.chanByName s.1.1 s.1.2, s.2)
   let conss := sp.cons.map fun s => (p1.chanByName s.1.1 s.1.2, s.2)
   let obs := sp.obs.map fun s => p1.chanByName s.1 s.2
-  if feeds.any (·.1.isNone) || conss.any (·.1.isNone) || obs.any Option.isNone then none else
+  if !sp.resolves m p0 then none else
   let rel := p1.nctx
   let gate (i : Nat) := p1.nctx + 1 + i
   let chOf (o : Option Ch) : Ch := match o with | some c => c | none => 0
